@@ -89,10 +89,15 @@ Proof.
     rewrite skipn_skipn. unfold zeros. cbn [repeat]. rewrite <- !app_assoc. cbn [app Nat.add]. reflexivity.
 Qed.
 
-Lemma rpsi_body_snoc pre x ov :
-  match rev (pre ++ [x]) with [] => [] | l :: r => rev r ++ [(l / 2 ^ ov * 2 ^ ov)%N] end =
-  pre ++ [(x / 2 ^ ov * 2 ^ ov)%N].
-Proof. rewrite rev_app_distr. cbn [rev app]. rewrite rev_involutive. reflexivity. Qed.
+Definition mask_body (f : N -> N) (bits : bytes) : bytes :=
+  match bits with [] => [] | _ => removelast bits ++ [f (last bits 0%N)] end.
+Definition rpsi_body (bits : bytes) (ov : N) : bytes := mask_body (fun b => (b / 2 ^ ov * 2 ^ ov)%N) bits.
+
+Lemma rpsi_body_snoc pre x ov : rpsi_body (pre ++ [x]) ov = pre ++ [(x / 2 ^ ov * 2 ^ ov)%N].
+Proof.
+  unfold rpsi_body, mask_body. destruct (pre ++ [x]) eqn:E; [destruct pre; discriminate|]. rewrite <- E.
+  rewrite removelast_last, last_last. reflexivity.
+Qed.
 
 (* buf[idx - 1] &= !bitmask, when the bit string is not empty *)
 Lemma mask_last_step (done bits rest : bytes) i (f : N -> N) :
@@ -101,13 +106,13 @@ Lemma mask_last_step (done bits rest : bytes) i (f : N -> N) :
    | [] => Ok (done ++ bits ++ rest)
    | _ :: _ => b <- @idx werr (done ++ bits ++ rest) (i - 1) ;; set_at (done ++ bits ++ rest) (i - 1) (f b)
    end) =
-  Ok (done ++ match rev bits with [] => [] | l :: r => rev r ++ [f l] end ++ rest).
+  Ok (done ++ mask_body f bits ++ rest).
 Proof.
-  intros Hi. destruct bits as [|b0 bits']; [reflexivity|].
+  intros Hi. unfold mask_body. destruct bits as [|b0 bits']; [reflexivity|].
   assert (Hne : b0 :: bits' <> []) by congruence.
   destruct (exists_last Hne) as [pre [x Hsnoc]]. rewrite Hsnoc in *. clear Hsnoc Hne.
   rewrite app_length in Hi. cbn [length] in Hi.
-  rewrite rev_app_distr. cbn [rev app]. rewrite rev_involutive.
+  destruct (pre ++ [x]) eqn:E; [destruct pre; discriminate|]. rewrite <- E. rewrite removelast_last, last_last.
   replace (done ++ (pre ++ [x]) ++ rest) with ((done ++ pre) ++ [x] ++ rest) by (rewrite <- !app_assoc; reflexivity).
   rewrite idx_app_r by len. replace (i - 1 - length (done ++ pre)) with 0 by len.
   cbn [app idx nth_error bind].
@@ -136,21 +141,26 @@ Proof.
     with ([tb; pt] ++ bits ++ skipn (1 + 1 + length bits) rest) by (rewrite <- !app_assoc; reflexivity).
   rewrite (mask_last_step [tb; pt] bits _ (2 + length bits) (fun b => (b / 2 ^ ov * 2 ^ ov)%N)) by (cbn [length]; lia).
   cbn [bind].
-  set (body := match rev bits with [] => [] | l :: r => rev r ++ [(l / 2 ^ ov * 2 ^ ov)%N] end).
-  assert (Hbl : length body = length bits).
-  { unfold body. clear. destruct bits as [|b bits' _] using rev_ind; [reflexivity|].
+  change (mask_body (fun b => (b / 2 ^ ov * 2 ^ ov)%N) bits) with (rpsi_body bits ov).
+  assert (Hbl : length (rpsi_body bits ov) = length bits).
+  { clear. destruct bits as [|b bits' _] using rev_ind; [reflexivity|].
     rewrite rpsi_body_snoc. rewrite !app_length. reflexivity. }
+  remember (rpsi_body bits ov) as body eqn:Hbody.
   replace ([tb; pt] ++ body ++ skipn (1 + 1 + length bits) rest)
     with (([tb; pt] ++ body) ++ skipn (1 + 1 + length bits) rest) by (rewrite <- !app_assoc; reflexivity).
   rewrite (zero_fill_ok (e - length bits - 2)) by len. rewrite skipn_skipn.
-  unfold rfc_rpsi. rewrite Hfill. fold body. rewrite <- Htb.
+  unfold rfc_rpsi. rewrite Hfill.
+  change (match bits with [] => [] | _ :: _ => removelast bits ++ [(last bits 0 / 2 ^ ov * 2 ^ ov)%N] end) with (rpsi_body bits ov).
+  rewrite <- Hbody. rewrite <- Htb.
   replace (1 + 1 + length bits + (e - length bits - 2)) with e by lia.
   rewrite <- !app_assoc. reflexivity.
 Qed.
 
 Lemma rfc_rpsi_length pt bits ov : length (rfc_rpsi pt bits ov) = pad4 (2 + length bits).
 Proof.
-  unfold rfc_rpsi. destruct bits as [|b bits' _] using rev_ind.
+  unfold rfc_rpsi.
+  change (match bits with [] => [] | _ :: _ => removelast bits ++ [(last bits 0 / 2 ^ ov * 2 ^ ov)%N] end) with (rpsi_body bits ov).
+  destruct bits as [|b bits' _] using rev_ind.
   - reflexivity.
   - rewrite rpsi_body_snoc. repeat rewrite ?app_length, ?zeros_length. cbn [length]. unfold pad4. lia.
 Qed.
